@@ -9,6 +9,8 @@ pub mod c05;
 pub mod hist;
 pub mod c08;
 pub mod c09;
+pub mod c13;
+pub mod c15;
 
 pub fn run(engine: &str, ctx: &Ctx, rep: &mut Report) -> bool {
     match engine {
@@ -21,6 +23,9 @@ pub fn run(engine: &str, ctx: &Ctx, rep: &mut Report) -> bool {
         "c07" => hist::run_c07(ctx, rep),
         "c08" => c08::run(ctx, rep),
         "c09" => c09::run(ctx, rep),
+        "c13" => c13::run_c13(ctx, rep),
+        "c14" => c13::run_c14(ctx, rep),
+        "c15" => c15::run(ctx, rep),
         _ => return false,
     }
     true
